@@ -14,8 +14,8 @@ META = dict(
     "shapes, independence (write-through) and exceptions are executed facts",
     functions=["qucumber/nn_states/positive_wavefunction.py, complex_wavefunction.py, density_matrix.py: __init__, fit (guards)",
                "qucumber/nn_states/neural_state.py: reinitialize_parameters, fit", "qucumber/rbm/binary_rbm.py, purification_rbm.py: __init__, initialize_parameters"],
-    bounds=dict(quick="three state types x {sizes given (num_hidden / num_aux defaulted or explicit, != num_visible), module given}; num_visible in {2,3}; one SGD step for the mixed state (1,1,1) and (2,1,2)",
-                thorough="num_visible up to 4; training of (1,1,2) for two epochs and (2,1,1) for one epoch"),
+    bounds=dict(quick="three state types x {sizes given (num_hidden / num_aux defaulted or explicit, != num_visible), module given}; num_visible in {2,3}; constructors also with gpu=True; refusal of fit without bases fresh and with the stop flag set; two SGD epochs for the mixed state (1,1,1)",
+                thorough="num_visible up to 4; training of (1,1,2) for two epochs and (1,2,1) for one epoch"),
     outside=["optimizers other than SGD (their update rule is torch's)", "GPU placement"],
     stubs=["torch.randn -> fresh symbolic tape variables", "torch.bernoulli / randperm / randint -> scripted", "torch -> vf.symtorch"],
 )
